@@ -50,7 +50,8 @@ class Cli:
 
 
 def panicked(err):
-    return "panic:" in err or "goroutine " in err or "runtime error" in err or "fatal error" in err
+    """a Go runtime panic / fatal error trace (an error *message* that merely mentions 'runtime error' is a reported error)"""
+    return ("goroutine " in err and ("panic:" in err or "fatal error:" in err)) or "[signal SIG" in err
 
 
 def cell(v):
